@@ -92,6 +92,10 @@ def main(tier):
         chk.nontrivial.add(t)
         a, b, c = obs1[cid], obs2["x" + cid], obs3["y" + cid]
         bad = None
+        if "timeout" in (a["outcome"], b["outcome"], c["outcome"]):
+            # a deadline miss on a loaded machine says nothing about determinism (hangs are C01's subject)
+            chk.extra["runs_skipped_for_deadline"] = chk.extra.get("runs_skipped_for_deadline", 0) + 1
+            continue
         if a.get("rep_diff"):
             bad = "repetition in one process differs: first run %s, later run %s" % (rel.describe(a), a["rep_diff"][:400])
         else:
